@@ -2925,7 +2925,12 @@ fn real_sock(r: &mut Rng, ring: &mut Ring, k: Kd, out: &mut RealOut) -> Result<(
         // A direct descriptor has no synchronous equivalent: since the repair of H21 it keeps the
         // kernel's EOPNOTSUPP (known finding H27); anything else (an answer from an unrelated
         // descriptor, H21) is a violation.
-        let honest = k == Kd::Direct && errno_of(&s) == Some(Some(libc::EOPNOTSUPP)) && errno_of(&g) == Some(Some(libc::EOPNOTSUPP));
+        // (Linux 6.18 implements setsockopt at the TCP level in io_uring but not getsockopt: the
+        // set succeeds and must have taken effect, the get keeps EOPNOTSUPP.)
+        let unsupported = |e: Option<Option<i32>>| e == Some(Some(libc::EOPNOTSUPP));
+        let set_fine = (s.is_ok() && want == on) || unsupported(errno_of(&s));
+        let get_fine = g.as_ref().ok().copied() == Some(want) || unsupported(errno_of(&g));
+        let honest = k == Kd::Direct && set_fine && get_fine && (s.is_err() || g.is_err());
         out.fail(format!("TcpNoDelay({on}) on a {k:?} descriptor: set {s:?}, get {g:?}, the socket itself says {want}"), if honest { Some("direct-no-sync-equivalent") } else { None });
     }
     // Names.
